@@ -653,7 +653,7 @@ def reachable(P, root_ids, stop=None, with_callbacks=True):
     return par
 
 
-def analyse(ctx, root_npaths, audit, stop_re=None, label=None, with_callbacks=True):
+def analyse(ctx, root_npaths, audit, stop_re=None, label=None, with_callbacks=True, root_regex=None):
     """Run the PANIC analysis for the given roots inside rule context `ctx` (ctx.rule must be set).
     Each reachable construct is one rule instance."""
     P = ctx.P
@@ -668,6 +668,8 @@ def analyse(ctx, root_npaths, audit, stop_re=None, label=None, with_callbacks=Tr
             for c in P.closures_of(b):
                 if c.raw.get('coroutine'):
                     roots.append(c.id)
+    if root_regex:
+        roots.extend(b.id for b in P.bodies.values() if b.raw['promoted'] is None and re.search(root_regex, b.path) and b.id not in roots)
     stop = (lambda cid: re.search(stop_re, P.bodies[cid].npath) is not None) if stop_re else None
     par = reachable(P, roots, stop, with_callbacks)
     stats = {'bodies': 0, 'sites': 0, 'discharged': 0, 'audited': 0, 'unproven': 0, 'debug_only': 0}
@@ -720,7 +722,7 @@ def property_rule(ctx, prop, rule_id, extra_text=''):
     audit = Audit(os.path.join(os.path.dirname(os.path.dirname(os.path.abspath(__file__))), 'rules', 'panic_audit.json'))
     for pat, why in spec['stops']:
         ctx.assume('PANIC leaf %s: %s' % (pat, why))
-    stats, par = analyse(ctx, spec['roots'], audit, stop_re=stop_regex(prop), label=prop)
+    stats, par = analyse(ctx, spec['roots'], audit, stop_re=stop_regex(prop), label=prop, root_regex=spec.get('root_regex'))
     ctx.assume('external crates and std are leaves: callees not listed in the panic-capable table are assumed not to panic')
     ctx.assume('modelled build: overflow checks and debug assertions off (release profile); panic = abort')
     return stats
